@@ -211,3 +211,26 @@ func (h *Heap) baseFacts(r *Term, key []*Term) {
 		}
 	}
 }
+
+func (h *Heap) describe(d int) string {
+	if d == 0 {
+		return "…"
+	}
+	switch h.kind {
+	case hBase:
+		return "base(" + h.tag + ")"
+	case hStore:
+		return fmt.Sprintf("store[%s := %s] <- %s", h.key[0].Short(), h.val.Short(), h.prev.describe(d-1))
+	case hHavoc:
+		return "havoc(" + h.tag + ") <- " + h.prev.describe(d-1)
+	case hIte:
+		return fmt.Sprintf("ite(%s, %s, %s)", h.c.Short(), h.a.describe(d-1), h.b.describe(d-1))
+	case hZero:
+		return "zero <- " + h.prev.describe(d-1)
+	case hCopy:
+		return "copy <- " + h.prev.describe(d-1)
+	case hStr:
+		return "str <- " + h.prev.describe(d-1)
+	}
+	return "?"
+}
